@@ -33,6 +33,7 @@ RULE += (' Also: calls made from inside an except block of the caller.')
 RULE += (' Also: exceptions with lenient equality.')
 RULE += (' Also: call objects created up-front and started later.')
 RULE += (' Also: class-based managers whose exit answers a clean exit with a true value: the result of the call is still handed on.')
+RULE += (" Also: bodies ending with a BaseException that is no Exception while the context's clean-up fails with its own exception; class managers whose exit is a staticmethod / classmethod.")
 ASSUMPTIONS = ["class-based ContextDecorator instances are shared between calls (documented default of _recreate_cm)"]
 EXHAUSTIVE_SUBSPACES = 'every scenario counted in scenarios_explored_exhaustively had ALL its interleavings executed'
 EXHAUSTIVE = {"quick": False, "thorough": False}
@@ -56,7 +57,7 @@ def cases(tier, seed, shard, nshards):
             calls = [[rng.choice(["ret", "ret", "raise"]) for _ in range(rng.randint(1, 5 if nt == 1 else 3))] for _ in range(nt)]
             susp = {"enter": rng.choice([0, 1, 2]), "body": rng.choice([0, 1, 2]), "exit": rng.choice([0, 1, 2])}
         manager = rng.choice(["generator", "generator", "class", "lease"])
-        yield {"mode": mode, "manager": manager, "clean_exit_truthy": rng.random() < 0.4, "suppress": rng.choice([False, False, False, True, True, "all"]), "body_kind": rng.choice(["async", "async", "eager"]),
+        yield {"mode": mode, "manager": manager, "clean_exit_truthy": rng.random() < 0.4, "exit_binding": rng.choice(["method", "method", "static", "class"]), "suppress": rng.choice([False, False, False, True, True, "all"]), "body_kind": rng.choice(["async", "async", "eager"]),
                "direct": rng.random() < 0.25 and manager != "lease",
                "calls": calls, "susp": susp, "cancel_task": rng.randrange(nt) if rng.random() < 0.45 else None,
                "runs": DFS_LIMIT[tier] if mode == "dfs" else RANDOM_RUNS[tier], "seed": rng.randrange(1 << 30),
@@ -99,7 +100,11 @@ class LenientError(Exception):
         return False
 
 
-EXACT = {"LenientError": LenientError, "Exception": Exception, "BaseException": BaseException, "StopAsyncIteration": StopAsyncIteration,
+class Abort(BaseException):
+    """A BaseException that is no Exception, raised by the body (an abort request, a framework's control-flow signal)."""
+
+
+EXACT = {"Abort": Abort, "AbortAgain": Abort, "LenientError": LenientError, "Exception": Exception, "BaseException": BaseException, "StopAsyncIteration": StopAsyncIteration,
          "RuntimeError": RuntimeError, "KeyError": KeyError, "ShutdownSignal": ShutdownSignal, "StopSignal": StopSignal}
 
 
@@ -124,7 +129,9 @@ def execute(case, choose, cancel_at=None):
     def translate(exc):
         """The context replaces the body's failure by its own exception (chained explicitly, implicitly, or not)."""
         how = case.get("translate")
-        if how is None or not isinstance(exc, Exception):
+        # (also when the body ended with a BaseException that is no Exception - an abort: the clean-up's own failure
+        # is what the call ends with; the driver's cancellation and GeneratorExit shutdowns are left alone)
+        if how is None or isinstance(exc, (Cancel, GeneratorExit)):
             return
         # (a RuntimeError raised explicitly ``from`` a Stop(Async)Iteration is indistinguishable from the generator
         # protocol's own conversion of an escaped Stop(Async)Iteration - contextlib, too, reads it as "the generator
@@ -221,7 +228,7 @@ def execute(case, choose, cancel_at=None):
                     await Suspend(("enter", "shared"), susp["enter"])
                 return self
 
-            async def __aexit__(self, et, exc, tb):
+            async def _leave(et, exc, tb):
                 ev.append((CTX.current, "exit", "shared", exc))
                 if susp["exit"]:
                     await Suspend(("exit", "shared"), susp["exit"])
@@ -229,6 +236,19 @@ def execute(case, choose, cancel_at=None):
                     translate(exc)
                 # (an exit answering a CLEAN exit with a true value - "all is well" - has suppressed nothing)
                 return suppressed(exc) or (exc is None and bool(case.get("clean_exit_truthy")))
+
+            # (the exit as an ordinary method, a staticmethod or a classmethod - a class-level resource: the with
+            # statement binds each of them correctly, and so does the decorator)
+            if case.get("exit_binding") == "static":
+                __aexit__ = staticmethod(_leave)
+            elif case.get("exit_binding") == "class":
+                @classmethod
+                async def __aexit__(cls, et, exc, tb, _leave=_leave):
+                    return await _leave(et, exc, tb)
+            else:
+                async def __aexit__(self, et, exc, tb, _leave=_leave):
+                    return await _leave(et, exc, tb)
+            del _leave
 
         deco = Manager()
 
